@@ -1,5 +1,6 @@
 import LoraVerif.Props.C19
 import LoraVerif.Props.TieA.MacCmdCreators
+import LoraVerif.Props.TieA.MacCmdCreatorsInto
 /-!
 # C19 — the module `./check C19` builds: the property theorems (`Props/C19.lean`) together with the tie-A equalities
 between the hand model of the command creators and the creators regenerated from the current source
